@@ -1,4 +1,5 @@
 import OntVerif.Proofs.GovSplit
+import OntVerif.Proofs.GovInv
 /-!
 # C10 — Governance fee split never distributes more than it is splitting
 
@@ -12,7 +13,7 @@ every state the real contract reaches in the correspondence runs; its preservati
 yet (hence `_partial`).
 -/
 namespace OntVerif.Props.C10
-open OntVerif.Model.Gov OntVerif.Proofs.GovSplit
+open OntVerif.Model.Gov OntVerif.Proofs.GovSplit OntVerif.Proofs.GovInv
 
 /-- the ONG sent to the dapp (gas) address -/
 def dappOf (r : SplitResult) : Nat := match r.dapp with | none => 0 | some (_, n) => n
@@ -73,6 +74,47 @@ theorem C10_partial (g : Genesis) (ops : List Op) (r : SplitResult) :
     dappOf r + csum r.credits ≤ s.bank.govOng - s.bank.splitFee ∧ r.splitSum = csum r.credits := by
   intro s hinv h
   exact C10_sum_le _ r hinv h
+
+/-- the deployment the reachability theorems start from: `InitConfig` for `g`, funded, with the repaired `A + B` check of
+`UpdateGlobalParam` (`fixes/C10-ab-sum-wrap.patch`; as shipped the `uint32` sum wraps, see `C10_ab_wrap_counterexample`) -/
+def start (g : Genesis) : St := { book := { initBook g with soundGp := true }, bank := (initSt true g).bank }
+
+/-- **`GovInv` is an invariant of the contract** — its logical core, for ALL operation sequences (rejected ones included) from
+any genesis with distinct, non-empty peers: the position clause (`PosInv`: for every candidate of the settled view the
+authorizers' settled positions are bounded by its `TotalPos` of that view, it is still in the current pool with the same
+owner, `TotalPos` = Σ active positions, …) and the parameter clauses (`AuxInv`: `A + B ≤ 100`, dapp fee ≤ 100, every peer
+cost ≤ 100 / stake cost ≤ 101 in all three epochs' slots, at least `K` candidates in the settled view, `K > 0`). -/
+theorem C10_GovInv_invariant (g : Genesis) (ops : List Op) (hn : (g.peers.map (·.1)).Nodup) (hne : g.peers ≠ []) :
+    PosInv (run ops (start g)).book ∧ AuxInv (run ops (start g)).book := by
+  obtain ⟨h1, h2⟩ := init_inv g hn hne (start g).book rfl
+  exact run_inv ops (start g) h1 h2
+
+/-- …hence `GovInv` itself holds in every reachable state that respects the resource bounds (`Bounded`: candidate stakes
+≤ 10^10, at most 10^4 candidates, `SplitFee ≤` ONG balance `< 2^64` — consequences of the ONT/ONG supply and of the
+`candidateNum` parameter, not of the contract's logic). -/
+theorem C10_govInv_reachable (g : Genesis) (ops : List Op) (hn : (g.peers.map (·.1)).Nodup) (hne : g.peers ≠ [])
+    (hb : Bounded (run ops (start g)).book (run ops (start g)).bank) :
+    govInv (splitEnv (run ops (start g)).book (run ops (start g)).bank) = true := by
+  obtain ⟨h1, h2⟩ := C10_GovInv_invariant g ops hn hne
+  exact govInv_of_inv _ _ h1 h2 hb
+
+/-- **The property for reachable states**: after any history, a settlement credits at most the income; the only hypotheses
+left are the resource bounds. -/
+theorem C10_sum_le_reachable (g : Genesis) (ops : List Op) (r : SplitResult) (hn : (g.peers.map (·.1)).Nodup)
+    (hne : g.peers ≠ []) (hb : Bounded (run ops (start g)).book (run ops (start g)).bank)
+    (h : split2 (splitEnv (run ops (start g)).book (run ops (start g)).bank) = .ok r) :
+    dappOf r + csum r.credits ≤ (run ops (start g)).bank.govOng - (run ops (start g)).bank.splitFee ∧
+    r.splitSum = csum r.credits :=
+  C10_sum_le _ r (C10_govInv_reachable g ops hn hne hb) h
+
+/-- the code as shipped: `UpdateGlobalParam` accepts `A = 2^32 − 1, B = 101` (the `uint32` sum is 100), which breaks the
+`A + B ≤ 100` clause; the repaired check rejects it -/
+theorem C10_ab_wrap_counterexample :
+    gpSumBad false { candidateFee := 0, minInitStake := 1, candidateNum := 49, posLimit := 20, A := 4294967295, B := 101,
+                     yita := 5, penalty := 5 } = false ∧
+    gpSumBad true { candidateFee := 0, minInitStake := 1, candidateNum := 49, posLimit := 20, A := 4294967295, B := 101,
+                    yita := 5, penalty := 5 } = true := by
+  decide
 
 /-- **`nodeAmount − sumAmount` does not underflow**: under `candOK` the credits of one node add up to exactly the node's
 amount – the authorizers' shares never exceed it, the owner's remainder is the exact difference. -/
